@@ -41,10 +41,11 @@ def main(argv=None):
         traceback.print_exc()
         try:
             ck.unknown("ENGINE", "spverif", "internal error", f"{type(e).__name__}: {e}")
-            ck.finish()
+            rc = ck.finish()
         except Exception:
-            pass
-        return 2
+            rc = 2
+        # violations established before the analysis broke off are still violations (exit 1); otherwise incomplete
+        return 1 if rc == 1 else 2
     return ck.finish()
 
 
